@@ -228,6 +228,26 @@ def run(program, rep, tier):
                           'instances created without that argument share one '
                           'object', line=istores[0].lineno)
     rep.floor('C20.same-value', 'property setters analysed', n_set, 6)
+    # no method the transforms inherit re-runs `self.__init__()`: on a transform
+    # that is the transform's constructor with all-default arguments - the
+    # stored position / rotation / scale are replaced without any notification
+    for c in program.classes_named('EventDispatcher') if hasattr(
+            program, 'classes_named') else [program.cls('EventDispatcher')]:
+        for m in c.methods.values():
+            if m.name in ('__init__', '__new__'):
+                continue
+            for n in ast.walk(m.node):
+                if isinstance(n, ast.Call) and isinstance(
+                        n.func, ast.Attribute) and n.func.attr == '__init__' \
+                        and (dotted(n.func.value) == 'self' or norm(
+                            n.func.value) in ('type(self)', 'self.__class__')):
+                    rep.bad('C20.same-value', m.where, n,
+                            f'{m.qualname} re-runs the constructor of the '
+                            'object\'s own class: on a Transform2D / '
+                            'Transform3D the stored position, rotation and '
+                            'scale are silently replaced by the defaults - a '
+                            'read no longer returns the value that was '
+                            'assigned and announced', line=n.lineno)
     # listeners of one event must not be subscribed to the others through the
     # decorator leaking a subclass's events into its base class (C03.mapping)
     from rules import c03
